@@ -166,6 +166,7 @@ func startFixture(base string, pin string, kinds []string, nExtra int, stored []
 	for _, p := range protos[1:] {
 		rest = append(rest, p.acc)
 	}
+	app.EnableTimeJumps()
 	a, err := app.Start(f.dir, pin, protos[0].acc, rest...)
 	if err != nil {
 		os.RemoveAll(f.dir)
